@@ -9,3 +9,5 @@ INVARIANT SwitchOneIsIndependent
 INVARIANT SwitchZeroIsOnePatch
 INVARIANT HmmSumsToOne
 INVARIANT BinLengthsConsistent
+INVARIANT LociNormalised
+INVARIANT LociLengthsConsistent
